@@ -77,6 +77,7 @@ type Trace struct {
 	Real        service.UDPMetrics
 	AllMetrics  []world.UDPEvent
 	Deadlines   map[string][]time.Duration // per server socket: sequence of read deadlines set (relative to Epoch)
+	Slack       time.Duration              // time a teardown may take (the configured duration of a removal report)
 }
 
 type Config struct {
@@ -87,6 +88,8 @@ type Config struct {
 	Validator  string // "" default policy | "allow-all"
 	Hosts      map[string][]string // extra resolver entries
 	Listeners  int                 // UDP listeners of the service, all served by the same handler (default 1)
+	SlowRemove time.Duration       // every removal report takes this long (virtual time)
+	ViaManager bool                // the handler reads from a listener-manager handle (shared socket), as in the server
 }
 
 func DefaultKeys() []*world.Key {
@@ -112,7 +115,7 @@ func Payload(c, step, n int) []byte {
 
 // Run executes ops (must be called as the body of a vrt execution) and fills tr.
 func Run(cfg Config, ops []Op, tr *Trace) {
-	*tr = Trace{Keys: cfg.Keys, NatTimeout: cfg.NatTimeout, Deadlines: map[string][]time.Duration{}}
+	*tr = Trace{Keys: cfg.Keys, NatTimeout: cfg.NatTimeout, Deadlines: map[string][]time.Duration{}, Slack: cfg.SlowRemove}
 	vw := vnet.Reset()
 	vw.Hosts["dns.example"] = []net.IP{net.ParseIP("93.184.216.34")}
 	vw.Hosts["private.example"] = []net.IP{net.ParseIP("10.0.0.7")}
@@ -131,6 +134,8 @@ func Run(cfg Config, ops []Op, tr *Trace) {
 		tr.Real = real
 	}
 	w := world.NewUDP(cfg.Keys, cfg.NatTimeout, real)
+	w.Rec.SlowRemove = cfg.SlowRemove
+	w.ViaManager = cfg.ViaManager
 	if cfg.Validator == "allow-all" {
 		w.H.SetTargetIPValidator(func(net.IP) error { return nil })
 	}
